@@ -74,12 +74,19 @@ def springs_fc(scell, rc=None, kl=5.0, kt=0.5):
     L = scell.cell
     pos = scell.scaled_positions
     n = len(pos)
+    shifts = np.array(list(itertools.product((-1, 0, 1), repeat=3)))
     if rc is None:
         vs = [L[0], L[1], L[2], L[0] + L[1], L[0] - L[1], L[1] + L[2], L[1] - L[2], L[0] + L[2], L[0] - L[2],
               L[0] + L[1] + L[2], L[0] + L[1] - L[2], L[0] - L[1] + L[2], -L[0] + L[1] + L[2]]
-        rc = 0.45 * min(np.linalg.norm(v) for v in vs)
+        tmin = min(np.linalg.norm(v) for v in vs)
+        # nearest-neighbour distance over all pairs and images, so that every atom has at least one spring
+        dall = (pos[None, None, :, :] - pos[None, :, None, :] + shifts[:, None, None, :]) @ L
+        rall = np.linalg.norm(dall, axis=3)
+        off = ~np.eye(n, dtype=bool)[None, :, :] if n > 1 else np.ones((1, 1, 1), dtype=bool)
+        cand = rall[(rall > 1e-6) & off]
+        dnn = cand.min()
+        rc = max(0.45 * tmin, 1.3 * dnn)
     fc = np.zeros((n, n, 3, 3))
-    shifts = np.array(list(itertools.product((-1, 0, 1), repeat=3)))
     for i in range(n):
         d = (pos[None, :, :] - pos[i][None, None, :] + shifts[:, None, :]) @ L  # (27, n, 3)
         r = np.linalg.norm(d, axis=2)
